@@ -47,6 +47,10 @@ type DAGService struct {
 
 	startTime time.Time
 	totalSize uint64
+
+	// first error returned by Add(). The importer does not check all
+	// of them, so Finalize() does.
+	addErr error
 }
 
 // New returns a new ClusterDAGService, which uses the given rpc client to perform
@@ -72,12 +76,20 @@ func (dgs *DAGService) Add(ctx context.Context, node ipld.Node) error {
 		return nil
 	}
 
-	return dgs.ingestBlock(ctx, node)
+	err := dgs.ingestBlock(ctx, node)
+	if err != nil && dgs.addErr == nil {
+		dgs.addErr = err
+	}
+	return err
 }
 
 // Finalize finishes sharding, creates the cluster DAG and pins it along
 // with the meta pin for the root node of the content.
 func (dgs *DAGService) Finalize(ctx context.Context, dataRoot cid.Cid) (cid.Cid, error) {
+	if dgs.addErr != nil {
+		return dataRoot, dgs.addErr
+	}
+
 	lastCid, err := dgs.flushCurrentShard(ctx)
 	if err != nil {
 		return lastCid, err
